@@ -4,6 +4,18 @@ import json, os
 
 # id -> (technique, level text, design ref)   -- only properties whose rules are built and armed
 CLAIMED = {
+ "C04": ("path counting of final-reply events on SSA with callee summaries; constant table of reply/enhanced codes; value flow of verdicts; capture rule for delivery goroutines",
+         "Exactly one final reply on every path of the dispatcher and each handler (with the frozen, individually checked exceptions), every constant code/enhanced-code pair well-formed and class-consistent, reply line format by value flow, DATA/BDAT verdict only from this transaction's backend result, no transaction-scoped field re-read by the BDAT goroutine. Validity of echoed text and network write ordering are not decided.",
+         "DESIGN.md §3 C04"),
+ "C08": ("pairing and must-pass-through rules on SSA, loop typestate rule (close check before next dispatch), frozen go-statement table",
+         "Logout paired with clearing the session on all paths, sessions always stored, Close on every exit of handleConn, reply-then-close on QUIT/threshold/panic, no dispatch after a failed read, a branch on Close-written state between a closing dispatch and the next one. Goroutine termination depending on the backend is not decided.",
+         "DESIGN.md §3 C08"),
+ "C09": ("edge-feasibility guards, definition check of authAllowed, value flow of SASL octets (leaf sources through phis), path rules with one-step path sensitivity for the client cancel",
+         "AUTH entry points unreachable when not allowed/greeted/already authenticated; didAuth set only after done+nil+235 and cleared only by the TLS upgrade; mechanism octets only from tested decodes; client uses StdEncoding both ways and cancels with '*' on every error path. Mechanism internals and TLS trusted.",
+         "DESIGN.md §3 C09"),
+ "C10": ("must-pass-through effects after the TLS upgrade, never-read-between rule, who-may-call / leaf-source rules for the client dial helpers",
+         "All structural effects of a successful STARTTLS on server and client, the gates, the re-EHLO discipline, and the no-downgrade discipline of initStartTLS/DialStartTLS/NewClientStartTLS/sendMail, on every path. The TLS handshake and kernel socket buffers are trusted.",
+         "DESIGN.md §3 C10"),
  "C01": ("finite-table extraction of dataReader.Read by abstract interpretation of its SSA, exhaustive product comparison with the RFC 5321 reference transducer, value-flow rules for source/hand-off",
          "The reader touches the input byte only via comparisons with constants and a copy, and its only memory is a small-integer field, so the extracted (state x byte-class) table is the behaviour; equality with the reference transducer is decided for all octet streams, segmentations and read sizes. Source of the reader and hand-off to the backend are decided by value flow. bufio/net delivery is trusted.",
          "DESIGN.md §3 C01"),
